@@ -11,6 +11,7 @@ import (
 	"github.com/attestantio/dirk/services/fetcher"
 	memfetcher "github.com/attestantio/dirk/services/fetcher/mem"
 	"github.com/attestantio/dirk/services/locker"
+	"github.com/attestantio/dirk/services/ruler"
 	"github.com/attestantio/dirk/services/unlocker"
 	localunlocker "github.com/attestantio/dirk/services/unlocker/local"
 	"github.com/google/uuid"
@@ -482,6 +483,23 @@ func (u *UnlockerWrap) UnlockAccount(ctx context.Context, w e2wtypes.Wallet, a e
 }
 
 func (a *acctBase) inner() e2wtypes.Account { return a.Account }
+
+// RulerWrap can make the ruler answer with no verdicts at all.
+type RulerWrap struct {
+	ruler.Service
+	plan *FaultPlan
+	s    *Sched
+}
+
+// RunRules forwards with optional fault: planned for a key the request names, the ruler's answer is an empty list.
+func (r *RulerWrap) RunRules(ctx context.Context, credentials *checker.Credentials, action string, data []*ruler.RulesData) []rules.Result {
+	for _, d := range data {
+		if d != nil && r.plan.Take("ruler", r.s.KeyName(d.PubKey), false) == "empty" {
+			return []rules.Result{}
+		}
+	}
+	return r.Service.RunRules(ctx, credentials, action, data)
+}
 
 // The wrappers still are what the services are declared to be.
 var (
